@@ -238,6 +238,10 @@ class AncillaryFeature:
         the return value of the requirement function are hashed.
         """
         hasher = hashlib.md5()
+        # the recipe itself (plugin features may be removed and registered
+        # again under the same name with another method)
+        if self.identifier:
+            hasher.update(obj2bytes(self.identifier))
         # data columns
         for col in self.req_features:
             hasher.update(obj2bytes(rtdc_ds[col]))
